@@ -158,6 +158,10 @@ def reachable(code, instrs):
     return seen, dead_static
 
 
+_MISSING = object()
+_OPAQUE = object()
+
+
 def analyse(code, mod, do_imports):
     """walk the bytecode of one code object in offset order; returns (n_loads, problems).
 
@@ -171,18 +175,43 @@ def analyse(code, mod, do_imports):
     instrs = list(dis.get_instructions(code))
     leaders = {i.offset for i in instrs if i.is_jump_target}
     live, _ = reachable(code, instrs)
+    # locals that only import statements bind (the compiler's view of `import lena.flow` inside a function):
+    # reading one of them where no import has bound it is an UnboundLocalError, a NameError
+    n_params = code.co_argcount + code.co_kwonlyargcount + bool(code.co_flags & 0x4) + bool(code.co_flags & 0x8)
+    params = set(code.co_varnames[:n_params])
+    stores, import_stores, depth = {}, {}, 0
+    for ins in instrs:
+        op = ins.opname
+        if op == "IMPORT_NAME":
+            depth = 1
+        elif op == "IMPORT_FROM":
+            depth += 1
+        elif op in ("STORE_FAST", "STORE_DEREF"):
+            stores[ins.argval] = stores.get(ins.argval, 0) + 1
+            if depth:
+                import_stores[ins.argval] = import_stores.get(ins.argval, 0) + 1
+                depth -= 1
+        elif op == "POP_TOP":
+            depth = max(0, depth - 1)
+        elif op not in ("LOAD_CONST", "SWAP"):
+            depth = 0
+    import_only = {n for n, k in import_stores.items() if stores.get(n) == k and n not in params}
     stack = []            # the values of an import statement in progress
     consts = []           # the last LOAD_CONST values (level, fromlist)
     implocals = {}        # local name -> object bound by an import statement
-    cond = set()          # import-bound locals bound in a conditional block
+    cond = {}             # import-bound locals bound in a conditional block -> what they were bound to before
     in_cond_block = False
     for i, ins in enumerate(instrs):
         op = ins.opname
         if i not in live:
             continue
         if ins.offset in leaders:
-            for n in cond:
-                implocals.pop(n, None)
+            # a join point: what a conditional block has bound is not certain any more (what was bound before is)
+            for n, prev in cond.items():
+                if prev is _MISSING:
+                    implocals.pop(n, None)
+                else:
+                    implocals[n] = prev
             cond.clear()
             in_cond_block = True
         if op.startswith("POP_JUMP") or op in ("FOR_ITER", "JUMP_FORWARD", "JUMP_BACKWARD",
@@ -223,12 +252,10 @@ def analyse(code, mod, do_imports):
             if stack:
                 val = stack.pop()
                 if op in ("STORE_FAST", "STORE_DEREF"):
-                    if val is not None:
-                        implocals[ins.argval] = val
-                        if in_cond_block:
-                            cond.add(ins.argval)
-                    else:
-                        implocals.pop(ins.argval, None)
+                    if in_cond_block and ins.argval not in cond:
+                        cond[ins.argval] = implocals.get(ins.argval, _MISSING)
+                    # an import that could not be performed here (module not installed) binds an unknown object
+                    implocals[ins.argval] = val if val is not None else _OPAQUE
             elif op in ("STORE_FAST", "STORE_DEREF"):
                 implocals.pop(ins.argval, None)       # re-bound by something that is not an import
         else:
@@ -249,6 +276,9 @@ def analyse(code, mod, do_imports):
                     val = implocals.get(name)
                     if found:
                         n_loads += 1
+                    elif name in import_only and op in ("LOAD_FAST", "LOAD_FAST_CHECK"):
+                        n_loads += 1
+                        problems.append({"kind": "NameError", "name": name, "unbound_local": True})
                 j = i + 1
                 while found and is_lena_module(val) and j < len(instrs) and instrs[j].opname in ("LOAD_ATTR", "LOAD_METHOD"):
                     a = instrs[j].argval
